@@ -389,10 +389,26 @@ func (m *Machine) indexCheck(idx value, it types.Type, n int) (int, *smt.Term) {
 		F := m.F()
 		t := i.T
 		var inb *smt.Term
+		// does n exceed every value of the index type?
+		var maxv uint64 = ^uint64(0)
+		if ii.w < 64 {
+			maxv = (uint64(1) << uint(ii.w)) - 1
+		}
 		if ii.signed {
-			inb = F.And(F.BVSle(F.BVConst(0, ii.w), t), F.BVSlt(t, F.BVConst(uint64(n), ii.w)))
+			maxv >>= 1
+		}
+		upper := F.BoolConst(true)
+		if uint64(n) <= maxv {
+			if ii.signed {
+				upper = F.BVSlt(t, F.BVConst(uint64(n), ii.w))
+			} else {
+				upper = F.BVUlt(t, F.BVConst(uint64(n), ii.w))
+			}
+		}
+		if ii.signed {
+			inb = F.And(F.BVSle(F.BVConst(0, ii.w), t), upper)
 		} else {
-			inb = F.BVUlt(t, F.BVConst(uint64(n), ii.w))
+			inb = upper
 		}
 		if !m.branch(inb) {
 			m.rtPanic(fmt.Sprintf("index out of range [symbolic] with length %d", n))
